@@ -155,7 +155,7 @@ def main():
                     rec["status"] = "survived_all_checks"
                     rec["checks"] = {}
                     for c in ORDER:
-                        rc3, o3 = sh(f"./check {c} quick 2>&1 | grep -E -A1 '^(OK|VIOLATION|INCONCLUSIVE) ' | head -4", cwd=VERIF, timeout=200)
+                        rc3, o3 = sh(f"./check {c} quick 2>&1 | grep -a -E -A1 '^(OK|VIOLATION|INCONCLUSIVE)[ :]' | head -4", cwd=VERIF, timeout=200)
                         # exit code of the pipeline is tail's; read the verdict line instead
                         verdict = "OK" if "\nOK property=" in "\n" + o3 else ("VIOLATION" if "VIOLATION property=" in o3 else ("INCONCLUSIVE" if "INCONCLUSIVE" in o3 else "OTHER"))
                         rec["checks"][c] = verdict
